@@ -4043,6 +4043,8 @@ def SIS_effective_degree(Ssi0, Isi0, tau, gamma, tmin = 0, tmax=100,
     times = np.linspace(tmin,tmax,tcount) 
     original_shape = Ssi0.shape
     ksq = original_shape[0]*original_shape[1]
+    Ssi0 = Ssi0.copy()
+    Isi0 = Isi0.copy()
     Ssi0.shape = (1,ksq)
     Isi0.shape = (1,ksq)
     
@@ -4118,6 +4120,7 @@ def SIR_effective_degree(S_si0, I0, R0, tau, gamma, tmin=0, tmax=100,
     times = np.linspace(tmin,tmax, tcount)
     N = S_si0.sum()+I0+R0
     original_shape = S_si0.shape
+    S_si0 = S_si0.copy()
     S_si0.shape = (original_shape[0]*original_shape[1]) 
     #note this makes it array([[values...]])
     R0=np.array([R0])
